@@ -530,6 +530,80 @@ def gen_skeleton():
 GENERATORS['Skeleton.v'] = gen_skeleton
 
 
+# ---------------------------------------------------------------- unordered containers (C19)
+def split_fns(src):
+    """(fn name, body text) for every fn item of a source file (nested closures stay inside their fn)"""
+    out = []
+    for m in re.finditer(r'\bfn\s+(\w+)\b', src):
+        try:
+            i = src.index('{', m.end())
+            semi = src.find(';', m.end())
+            if 0 <= semi < i:
+                continue
+            j = matching(src, i)
+        except (ValueError, TranslateError):
+            continue
+        out.append((m.group(1), src[m.start():j + 1]))
+    return out
+
+
+def gen_unordered():
+    uses = []
+    containers = []
+    for f in ('ast.rs', 'attr.rs', 'expand.rs', 'validate.rs'):
+        src = strip_comments(read('o2o-impl/src/' + f))
+        for fn, body in split_fns(src):
+            names = set()
+            for m in re.finditer(r'let\s+(?:mut\s+)?(\w+)\s*(?::\s*[^=;]*?)?=\s*Hash(Map|Set)\s*::', body):
+                names.add((m.group(1), 'Hash' + m.group(2)))
+            for m in re.finditer(r'let\s+(?:mut\s+)?(\w+)\s*:\s*Hash(Map|Set)\b', body):
+                names.add((m.group(1), 'Hash' + m.group(2)))
+            for m in re.finditer(r'let\s+(?:mut\s+)?(\w+)\s*=[^;]*?collect::<\s*Hash(Map|Set)\b', body, re.S):
+                names.add((m.group(1), 'Hash' + m.group(2)))
+            head = body[:body.index('{')]
+            for m in re.finditer(r'(\w+)\s*:\s*&(?:mut\s+)?Hash(Map|Set)\b', head):
+                names.add((m.group(1), 'Hash' + m.group(2)))
+            for var, ty in sorted(names):
+                containers.append((f, fn, var, ty))
+                # a later `let [mut] var: Vec<..> = ...;` rebinds the name to an ordered container: uses after that
+                # statement are not uses of the map
+                full_body = body
+                rb = re.search(r'let\s+(?:mut\s+)?' + re.escape(var) + r'\s*:\s*Vec\b[^;]*;', body)
+                if rb:
+                    body = body[:rb.end()]
+                for m in re.finditer(r'(?<![\w.])' + re.escape(var) + r'\s*\.\s*(\w+)\s*\(', body):
+                    method = m.group(1)
+                    sorted_after = False
+                    if method in ('iter', 'into_iter', 'keys', 'values', 'drain'):
+                        # `let mut v: Vec<_> = X.iter().collect(); v.sort_by(|a, b| a.0.cmp(b.0));`
+                        tail = full_body[m.start():m.start() + 400]
+                        sorted_after = re.match(re.escape(var) + r'\s*\.\s*iter\(\)\s*\.collect\(\);\s*(\w+)\.sort_by\(\|a,\s*b\|\s*a\.0\.cmp\(b\.0\)\);', tail) is not None \
+                            or re.match(re.escape(var) + r'\s*\.\s*iter\(\)\s*\.collect\(\);\s*(\w+)\.sort\(\);', tail) is not None
+                    uses.append((f, fn, var, method, sorted_after))
+                for m in re.finditer(r'\bfor\b[^{;]*\bin\s+&?(?:mut\s+)?' + re.escape(var) + r'\b(?!\s*\.)', body):
+                    uses.append((f, fn, var, 'for-in', False))
+                body = full_body
+    if not containers:
+        raise TranslateError('no HashMap/HashSet found at all: the scan no longer recognises the code')
+    o = []
+    o.append('(* GENERATED by tools/translate.py: every HashMap/HashSet of o2o-impl/src and every method called on it. *)')
+    o.append('From Coq Require Import List String.')
+    o.append('Import ListNotations.')
+    o.append('Open Scope string_scope.')
+    o.append('')
+    o.append('(* (file, fn, variable, container type) *)')
+    o.append('Definition unordered_containers : list (string * string * string * string) :=')
+    o.append('  ' + coq_list(['(%s, %s, %s, %s)' % tuple(coq_str(x) for x in c) for c in containers]) + '.')
+    o.append('(* (file, fn, variable, method, iteration result is sorted by key right away) *)')
+    o.append('Definition unordered_uses : list (string * string * string * string * bool) :=')
+    o.append('  ' + coq_list(['\n   (%s, %s, %s, %s, %s)' % (coq_str(a), coq_str(b), coq_str(c), coq_str(d), coq_bool(e)) for a, b, c, d, e in uses]) + '.')
+    o.append('')
+    return '\n'.join(o), {'containers': containers, 'uses': len(uses)}
+
+
+GENERATORS['Unordered.v'] = gen_unordered
+
+
 def main():
     os.makedirs(OUT, exist_ok=True)
     summary = {}
